@@ -17,7 +17,7 @@ VARIABLES tr, l, viol
 
 tvars == << vars, tr, l, viol >>
 
-NoViol == [l |-> 0, inv |-> "ok"]
+NoViol == [l |-> 0, inv |-> "ok", exp |-> ""]
 
 TInit ==
     /\ Init
@@ -88,13 +88,13 @@ TStep ==
     /\ LET e == Trace[l] IN
        /\ Apply(e)
        /\ viol' = IF viol.inv # "ok" THEN viol
-                  ELSE LET b == Bad(e) IN IF b = "ok" THEN viol ELSE [l |-> l, inv |-> b]
+                  ELSE LET b == Bad(e) IN IF b = "ok" THEN viol ELSE [l |-> l, inv |-> b, exp |-> ToString(res')]
     /\ l' = l + 1 /\ tr' = tr /\ nops' = nops
 
 \* end of trace: report
 TDone ==
     /\ l = Bounds[tr].e + 1
-    /\ PrintT(<< "VERDICT", Bounds[tr].id, viol.l, viol.inv >>)
+    /\ PrintT(<< "VERDICT", Bounds[tr].id, viol.l, viol.inv, viol.exp >>)
     /\ l' = l + 1
     /\ UNCHANGED << vars, tr, viol >>
 
